@@ -412,6 +412,12 @@ func (s *server) compareTwins(when string, physical bool) *kit.Failure {
 			return kit.Failf("SNAPSHOT-TAIL-GARBAGE", "%s GarbageLen of the snapshot round-tripped at serverSeq %d: original %d, decoded %d", when, tw.at, g, tw.doc.GarbageLen())
 		}
 		if physical {
+			if !kit.NoExclusions() && removedTreeNodeWithRemovedAttr(tw.doc.RootObject()) {
+				// F68: the decoded document never collects the attribute tombstones of removed tree elements
+				tw.dead = true
+				s.w.ob.hit("excluded:" + findingRemovedNodeAttr)
+				continue
+			}
 			if td := dump(tw.doc.RootObject()); td != d {
 				return kit.Failf("SNAPSHOT-TAIL-PHYSICAL", "%s physical nodes of the snapshot round-tripped at serverSeq %d differ, %s", when, tw.at, firstDiff(d, td))
 			}
